@@ -5,7 +5,9 @@ import json, sys
 pid, wt = sys.argv[1][:3], sys.argv[2]
 round2 = len(sys.argv[1]) > 3
 extra = sys.argv[3] if len(sys.argv) > 3 else ""
-if sys.argv[1][3:] == "e":
+if sys.argv[1][3:] == "f":
+    extra += "\nThis is a SIXTH-ROUND request. Five earlier rounds covered loop bounds, index node bounds, early exits, stale buffers and caches, zero-length items, integer widths, initial values of extrema, channel sizing, shared file positions, character-vs-byte counting, option ordering, header fields taken from the last chromosome only, chromosome lookup order, files not truncated, rarely used options, name shapes, special float values, CRLF, very long lines, counts crossing 256, zoom-then-data query order. Choose something ELSE. Ideas: (1) a FORMAT-LEVEL field or layout rule that bigtools' own reader does not consult but other readers (UCSC kent tools, pyBigWig) do - header counts and offsets, reserved fields, version, field counts, total-summary location, R-tree header fields, zoom header fields, padding, ordering of file regions; (2) reading files produced by OTHER tools - big-endian files, other section types, unusual but legal block sizes, items_per_slot different from what bigtools writes, zoom levels bigtools would not create; (3) the boundary between COMMAND-LINE handling and the library - defaults, combinations of flags, how chrom.sizes or BED text is tokenised (extra columns, comments, blank lines, spaces vs tabs, missing trailing newline), clipping of out-of-range input; (4) ERROR and END-OF-INPUT paths relevant to this property - what is reported, what is left behind, whether a later call on the same object still behaves; (5) state shared between two consecutive uses of one object or one process (second write with the same options object, second query after an error).\n"
+elif sys.argv[1][3:] == "e":
     extra += "\nThis is a FIFTH-ROUND request. Four earlier rounds covered loop bounds, index node bounds, early exits, stale buffers and caches, zero-length items, integer widths, initial values of extrema, channel sizing, shared file positions, character-vs-byte counting, option ordering, header fields taken from the last chromosome only, chromosome lookup by name order, files not truncated, and rarely used options. Choose something ELSE. Ideas: behaviour that depends on the SHAPE OF NAMES OR TEXT (chromosome names of different lengths or sharing prefixes, tabs vs spaces, trailing white space, Windows line endings, very long lines), on SPECIAL VALUES (NaN, infinities, -0.0, values that do not survive f32, scores at integer limits), on COUNTS CROSSING A BOUNDARY (more than 255 / 256 / 65535 of something, block_size or items_per_slot at 1 or very large), or on the ORDER OF OPERATIONS on one object (same reader used for data then zoom then data again, writer options set in an unusual combination).\n"
 elif sys.argv[1][3:] == "d":
     extra += "\nThis is a FOURTH-ROUND request. Earlier rounds already tried: off-by-one errors in the main loops, wrong bounds of index nodes, early exits in the index search, stale buffers, skipped work for zero-length items, integer-width comparisons, wrong initial values of running minima / maxima, channel sizing, reopened file handles sharing a position, character-vs-byte counting, and options matched by position instead of by key. Choose something ELSE, preferably in code that ordinary command-line use rarely reaches: a public library function or option that the bundled tools do not use by default (e.g. reading through the generic open functions, zoom-interval reads, values() arrays, writer options such as max_zooms / initial_zoom_size / input sort type / channel size / in-memory mode), the handling of the last / first element of a sequence, the interaction between two chromosomes, or the end-of-file / end-of-chromosome bookkeeping.\n"
